@@ -306,6 +306,9 @@ def instances(tier):
         out.append(Inst(f"bfsw_fixed_point_{t}", make_bfsw_fixed_point(t), nvars=40, samples=3, timeout_ms=60000, meta=dict(kernel="bfsw sweep", topology=t)))
     for t in sh:
         out.append(Inst(f"bfsw_phase_shift_{t}", make_bfsw_shift(t), nvars=40, samples=3, timeout_ms=60000, meta=dict(kernel="bfsw phase shift", topology=t)))
+    # numba=True picks the result extraction with _get_numba_functions: whatever it picks must agree with the general pfsoln (numba=False)
+    out.append(Inst("numba_result_extraction_selector", c01.make_shortcut(), nvars=30, samples=2, timeout_ms=120000,
+                    meta=dict(kernel="pfsoln selector (numba on) vs general pfsoln (numba off)")))
     out.append(Inst("pfsoln", make_pfsoln(), nvars=48, samples=3, timeout_ms=60000, meta=dict(kernel="pfsoln")))
     return out
 
